@@ -136,7 +136,8 @@ _bsearch_s_chk(const void *key, const void *base, rsize_t nmemb, rsize_t size,
         BND_CHK_PTR_BOUNDS(base, nmemb * size);
     } else {
         rsize_t basesz = nmemb * size;
-        if (unlikely(basesz > basebos)) {
+        /* nmemb * size may wrap: compare without multiplying */
+        if (unlikely(size != 0 && nmemb > basebos / size)) {
             invoke_safe_mem_constraint_handler(
                 "bsearch_s: nmemb*size exceeds sizeof base", (void *)base, ESNOSPC);
             errno = ESNOSPC;
